@@ -8,6 +8,7 @@ import (
 	"errors"
 	"math"
 	"strconv"
+	"strings"
 )
 
 // AmountUnit describes a method of converting an Amount to something
@@ -91,6 +92,11 @@ func NewAmount(f float64) (Amount, error) {
 // ToUnit converts a monetary amount counted in bitcoin base units to a
 // floating point value representing an amount of bitcoin.
 func (a Amount) ToUnit(u AmountUnit) float64 {
+	if u+8 < 0 {
+		// Units smaller than a satoshi: multiply by the exactly
+		// representable 10^k instead of dividing by the inexact 10^-k.
+		return float64(a) * math.Pow10(-int(u+8))
+	}
 	return float64(a) / math.Pow10(int(u+8))
 }
 
@@ -105,6 +111,13 @@ func (a Amount) ToBCH() float64 {
 // the units with SI notation, or "Satoshi" for the base unit.
 func (a Amount) Format(u AmountUnit) string {
 	units := " " + u.String()
+	if k := -int(u + 8); k > 0 && a != 0 {
+		// Units smaller than a satoshi: the value is the whole number
+		// a*10^k, which float64 cannot hold exactly above 2^53.  Print the
+		// integer digits directly, in the same fixed-point layout.
+		zeros := strings.Repeat("0", k)
+		return strconv.FormatInt(int64(a), 10) + zeros + "." + zeros + units
+	}
 	return strconv.FormatFloat(a.ToUnit(u), 'f', -int(u+8), 64) + units
 }
 
